@@ -12,7 +12,9 @@ Oracle : REAL WNTRSimulator runs on seeded random networks (loops, parallel link
            tank / reservoir:  demand = net inflow (- leak demand), 1e-12 relative
            DD mode:   demand = sum_k base_k * mult_k(t + pattern_start) * demand_multiplier, 1e-12 relative
            leak demand is 0 unless the node's leak is switched on.
-         Skipped: isolated junctions (C09), runs / steps that did not converge (nothing is reported for them).
+         The balance is judged on EVERY junction, also those WNTR flags as isolated (0 = 0 + 0 there); the DD formula on every junction
+         that is CONNECTED by the check's own reachability (from tanks / reservoirs over links not reported Closed; never WNTR's
+         _is_isolated flags).  Skipped: runs / steps that did not converge (nothing is reported for them).
 """
 import json
 import math
@@ -51,7 +53,7 @@ class C01(Check):
         "store_results_in_network, expected_demand_param and Pattern/TimeSeries/Demands.at are hand transliterations tied by the "
         "simulation oracle (reported demand vs the Lean expectedDemand, exact to 1e-12). INLET/OUTLET of arbitrary registries is the "
         "C14 invariant; here adjacency is checked on the zoo (proof) and on random networks (oracle with adjacency from the spec). "
-        "Isolated junctions are excluded (C09).",
+        "Junctions WNTR flags as isolated are judged too; 'connected' (for the DD formula) is decided by the check's own reachability.",
         technique="Lean 4 proof over translator-regenerated constraint rows + differential run of real residuals against the Lean driver + "
         "exact-rational balance oracle on real simulations",
     )
@@ -67,7 +69,7 @@ class C01(Check):
     ]
     assumptions = [
         "the run converged at the reported step (non-converged steps are not reported by WNTR)",
-        "junction not isolated (isolated junctions are C09)",
+        "DD formula: junction reachable from a tank / reservoir over links not reported Closed",
     ]
 
     # ------------------------------------------------------------------ translate
@@ -160,6 +162,8 @@ class C01(Check):
             if frm["t"] != t:
                 broken.append(Broken("correspondence", "save_results capture", "frame time %r vs reported %r" % (frm["t"], t)))
                 return
+            closed = set(l["name"] for l in spec["links"] if int(tb.status[k, tb.lcol[l["name"]]]) == 0)
+            conn = C.connected_nodes(spec, closed)
             for name, kind in kinds.items():
                 c = tb.ncol[name]
                 dem, lk = float(tb.demand[k, c]), float(tb.leak[k, c])
@@ -167,9 +171,9 @@ class C01(Check):
                 qo = [float(tb.flow[k, tb.lcol[l]]) for l in outs[name]]
                 leak_on = name in frm["leak"]
                 rp = {"spec": spec, "node": name, "t": t}
-                if kind == "junction" and name in frm["iso_j"]:
-                    ctx.count("skip:isolated_junction")
-                    continue
+                flagged = kind == "junction" and name in frm["iso_j"]
+                if flagged:
+                    ctx.count("junction_flagged_isolated")  # judged like every other junction: 0 = 0 + 0 there
                 ctx.case((kind, mode, min(len(qi), 3), min(len(qo), 3), leak_on, par), nontrivial=any(q != 0 for q in qi + qo))
                 ctx.count("node:" + kind)
                 if lk != 0.0 and not leak_on:
@@ -198,6 +202,11 @@ class C01(Check):
 
                 batch.add(" ".join(line.split()), cb)
                 if kind == "junction" and mode == "DD":
+                    if name not in conn:
+                        ctx.count("dd_skip:not_connected")   # the statement restricts the formula to CONNECTED junctions
+                        continue
+                    if flagged:
+                        ctx.count("dd_connected_but_flagged_isolated")
                     dl, scale = C.dd_line(spec, ndspec[name], t)
 
                     def cb2(o, name=name, t=t, rp=rp, dem=dem, scale=scale):
@@ -240,7 +249,7 @@ class C01(Check):
         broken += C.zoo_agreement(ctx, wntr, "C01DD", self.info["DD"]["names"], "DD", "default", npts, lambda mbc, lc: mbc)
         broken += C.zoo_agreement(ctx, wntr, "C01PDD", self.info["PDD"]["names"], "PDD", "default", npts, lambda mbc, lc: mbc)
         corpus = [c["spec"] for _, c in vlib.corpus_items(self.pid) if "spec" in c]
-        specs = corpus + C.reversal_specs(ctx, 10 if ctx.quick else 80) + C.gen_specs(ctx, 30 if ctx.quick else 400, 11 if ctx.quick else 66)
+        specs = corpus + C.reversal_specs(ctx, 10 if ctx.quick else 80) + C.gen_specs(ctx, 30 if ctx.quick else 400, 24 if ctx.quick else 72)
         broken += self._static_rows(ctx, wntr, specs[: (24 if ctx.quick else 200)])
         f, b = self._run_specs(ctx, wntr, specs)
         failures += f
@@ -254,7 +263,7 @@ class C01(Check):
         wntr = vlib.import_wntr()
         self.max_res = 0.0
         corpus = [c["spec"] for _, c in vlib.corpus_items(self.pid) if "spec" in c]
-        f, b = self._run_specs(ctx, wntr, corpus + C.reversal_specs(ctx, 30) + C.gen_specs(ctx, 80, 22))
+        f, b = self._run_specs(ctx, wntr, corpus + C.reversal_specs(ctx, 30) + C.gen_specs(ctx, 80, 36))
         return f
 
     def replay(self, ctx, path):
